@@ -43,7 +43,7 @@ func genCorpus(w *Worker) []*genCase {
 			out = append(out, &genCase{Origin: origin, Spec: s})
 		}
 	}
-	for _, n := range gram.Families() {
+	for _, n := range append(gram.Families(), gram.BigFamilies()...) {
 		add("family:"+n.Name, n.Spec)
 	}
 	tiny := []gram.Class{{N: 2, T: 2, L: 2, R: 2}, {N: 1, T: 2, L: 3, R: 2}}
